@@ -69,6 +69,19 @@ def next_table(facts):
         curtys = set(rt_d)
         for (e, lab) in nonconst_conds(r):
             pe = ir.peel(e)
+            if pe[0] == 'call' and (pe[1].endswith("PartialEq>::eq") or pe[1].endswith("PartialEq>::ne")) and len(pe[2]) == 2 and isinstance(lab, tuple):
+                # `self == Role::Filter` (derived equality of a fieldless enum) is the same test as a match arm
+                vs = [variant_of(a) for a in pe[2]]
+                tys = [ir.peel(a)[2].rsplit("::", 1)[0] if variant_of(a) else None for a in pe[2]]
+                truth = (lab[0] == 'otherwise' or (lab[0] == 'case' and lab[1] != 0)) == pe[1].endswith("::eq")
+                for v, ty in zip(vs, tys):
+                    if v is None:
+                        continue
+                    if ty == ROLE:
+                        roles = (roles & {v}) if truth else (roles - {v})
+                    elif ty == RT:
+                        curtys = (curtys & {v}) if truth else (curtys - {v})
+                continue
             if pe[0] != 'discr':
                 continue
             x = ir.peel(pe[1])
